@@ -32,7 +32,9 @@ THEOREMS = [_T + n for n in [
     "C08_tags_bridge", "C08_pair_score_is_class_probability", "C08_clip_pair_scores", "C08_classes_are_vocabulary_tags",
     # calls and histories (follow-up 3): a call as content, every step of every sequence of calls judged on its own
     "C08_history", "C08_evaluate_bridge", "C08_evaluate_congr", "C08_shared_class_table_not_history_free",
-    "C08_buffer_memo_not_history_free", "C08_positional_binding"]]
+    "C08_buffer_memo_not_history_free", "C08_positional_binding",
+    # wave 5: pairs without closed form are credited on the (now independent) measurement alone
+    "C08_measured_pairs"]]
 LEVEL_TEXT = ("Lean theorems over the model of evaluate_clip / sound_event_detection hold for all inputs: evaluated clips = "
               "predictions whose clip id is annotated, in order; every annotated and predicted sound event (with or without "
               "geometry) is in exactly one match; the filtered->original index map is the order-preserving injection; a pair "
@@ -43,7 +45,9 @@ LEVEL_TEXT = ("Lean theorems over the model of evaluate_clip / sound_event_detec
               "'paired only if the geometries overlap' is proved with overlap defined by end-point comparisons "
               "(C08_overlap_iff_affinity_pos, C08_geo_pairs_overlap). The same comparison, evaluated in Lean "
               "(judgePairs, C08_judge_sound) on the matches sound_event_detection really returned, judges every reported "
-              "pair. Tags travel as content (term with all its fields, value): the class indices are computed by the Lean "
+              "pair. For a pair of which one geometry has no closed form (points, lines, polygons with or without holes) the "
+              "model reports exactly the affinity measured outside it, and pairs only where that measurement is positive "
+              "(C08_measured_pairs); the measurement comes from an oracle that shares no code with the library. Tags travel as content (term with all its fields, value): the class indices are computed by the Lean "
               "model of the encoder (C19's `encode`, bridged to the first layer by C08_tags_bridge), and 'the score of a pair "
               "is the probability the prediction gives to the annotation's class' is proved in terms of tag equality only "
               "(C08_pair_score_is_class_probability: stored score of the last predicted tag equal to the annotation's first "
@@ -61,7 +65,11 @@ LEVEL_TEXT = ("Lean theorems over the model of evaluate_clip / sound_event_detec
 LEVEL_NOTE = ("Trusted: Lean kernel; scipy's assignment (only its pairs enter the model; contract ValidAssignment evaluated "
               "on every answer; which overlapping pairs are chosen is C07's optimality, not pinned here); GEOS on "
               "rectangles (contract BoxExact, embodied in the trace stub); for geometry types without closed form "
-              "(points, lines, polygons) the affinity is a monitored measurement with shapely, not a model value. "
+              "(points, lines, polygons - holes included) the affinity is not a model value but a measurement by "
+              "harness/c07_oracle.py, which imports nothing from soundevent: shapely shapes built from the coordinates (shell "
+              "and holes of every polygon; the buffering recipe of the C11 model for point / line types), intersection over "
+              "union, time extents when one side is time-only; compared within 2^-40, within 2^-20 where a GEOS-buffered "
+              "outline takes part. "
               "Unmodelled: binary64 rounding of the means (dyadic scores: clip score is one correctly rounded division; "
               "overall score within 2^-40) and of the affinity (compared within 2^-40); scikit-learn behind the run-level "
               "metrics (C09). evaluate_clip's loop itself is tied by generator-bounded correspondence. Histories: the "
@@ -72,7 +80,8 @@ LEVEL_NOTE = ("Trusted: Lean kernel; scipy's assignment (only its pairs enter th
 TECHNIQUE = ("Lean 4 proof over a two-layer model (matcher as parameter under a proved-sufficient contract; matcher inside "
              "the model around the solver's pairs); table and symbolic-trace obligations regenerated from the source; "
              "end-to-end and per-clip differential correspondence, exhaustive small scopes; Lean-side judge of every "
-             "reported pair by closed-form overlap; executable property monitor on the real results; sequences of "
+             "reported pair by closed-form overlap, pairs without closed form by an affinity oracle that shares no code "
+             "with the library; executable property monitor on the real results; sequences of "
              "calls in one process (reuse after in-place edits / model_copy / copy, other vocabularies, other buffers, "
              "poisoned and re-read results, argument snapshots) judged step by step by the pure model; failing inputs "
              "re-run in a new interpreter so that the first replay is self-contained")
@@ -96,7 +105,18 @@ RULE = ("sound_event_detection end to end (0-4 evaluated clips, 0-4 annotated an
         "(time stamps, points, lines, multi points / lines / polygons) at dyadic offsets around twice the buffers; sizes: clips "
         "with 17, 260 and 33 x 32 (>= 1024 pairs) sound events on a lattice with several frequency rows; direct calls of "
         "the matcher with eight buffer settings (keyword, positional, defaults) and of its sibling entry point "
-        "compute_affinity; histories (detection_history): 160 / 1600 "
+        "compute_affinity; Polygons and MultiPolygons with 1 and 2 holes (holes touching nothing; as first / second / "
+        "only part of a MultiPolygon, next to a plain or a holed second polygon) against a counterpart inside a hole, equal "
+        "to it, straddling its edge, covering it, covering the shell, over the material only, in the second hole, in the "
+        "second polygon or far away - the counterpart as box, Polygon, part of a MultiPolygon, ring-shaped Polygon, "
+        "TimeInterval, Point or LineString, holes on the annotated or the predicted side (402-clip sweep, random clips, "
+        "through sound_event_detection, evaluate_clip and direct matcher calls), every pair judged by an affinity that "
+        "is computed from the coordinates without the library; Tag / Term objects made in other ways, chosen independently "
+        "for vocabulary, annotated and predicted tags: instances of Tag subclasses (no field of their own, a further "
+        "field, the term as a field default), model_validate (term as dictionary / as object), model_copy (shallow, deep, "
+        "update of the value), Term objects new per tag / one per term / borrowed from another vocabulary tag with an "
+        "equal term, a Term subclass for all tags of a call (430-clip pairwise sweep on a scenario with two classes under "
+        "equal, separately built terms; 20-30 % of the random cases and of the histories); histories (detection_history): 160 / 1600 "
         "sequences of 3-5 calls in one process - half of them directed (x, a neighbour of x of one kind on the same live "
         "objects revised one way, x again: kind in {other vocabulary, moved / added / removed / re-tagged / geometry-less sound "
         "event, direct matcher / compute_affinity call with other buffers} x way in {in place, model_copy(update), deep model_copy(update), "
@@ -105,13 +125,20 @@ RULE = ("sound_event_detection end to end (0-4 evaluated clips, 0-4 annotated an
         "poisoned in place and earlier live results read again after later calls; "
         "non-trivial = a result with at least one match; distinct = distinct (operation, input)")
 TRUSTED = ["scipy.optimize.linear_sum_assignment behind match_geometries: contracts MatcherCover and ValidAssignment evaluated on every answer",
-           "shapely/GEOS: exact on rectangles (trace stub); measured directly for points, lines and polygons (monitored contract)",
+           "shapely/GEOS: exact on rectangles (trace stub); called directly by the harness on shapes built from the "
+           "coordinates for points, lines and polygons",
            "harness: the content of a tag (every field of its term, its value) is read from the fields of an object built "
            "like the ones handed to the code; class indices and expected pair scores come from the Lean model of the "
            "encoder, never from the library's encoder",
            "harness: the pairs of the assignment solver are read from a second call of the real matcher on new objects "
-           "(the solver's freedom; only positions, never affinities, enter the geometry layer); buffer_geometry / "
-           "geometry_to_shapely (C11 / C05) prepare the shapes of the measured contract for types without closed form",
+           "(the solver's freedom; only positions, never affinities, enter the geometry layer)",
+           "harness/c07_oracle.py (shared with C07, read only, no soundevent import): shapes and affinity of pairs without "
+           "closed form, from the coordinates; neither the library's conversion to shapely nor its buffering nor its "
+           "affinity is consulted for an expected value",
+           "harness/c08_tagvariants.py: a Tag / Term object made another way (subclass instance, model_validate, model_copy, "
+           "shared or borrowed Term object) is read back field by field and must carry the content of its descriptor before it "
+           "is handed to the code (else the plain object is used and the fact tallied); the expected class of a tag comes "
+           "from the Lean encoder model on that content",
            "triage: a failing input is run again by harness/c08_worker.py in a new interpreter and judged by the same "
            "monitor; this only orders the replays, it never removes a failure"]
 ASSUMPTIONS = ["clip ids pairwise distinct within the prediction list and within the annotation list",
@@ -125,7 +152,11 @@ NOT_COMPARED = ["run-level metrics and per-match metric lists (property C09)", "
                 "answer of a call must still be the answer for its content (the solver's pairs are taken from the same "
                 "content on new objects)",
                 "the library's own compute_affinity is no longer consulted as a second opinion on reported affinities "
-                "(closed form in Lean or direct measurement, within 2^-40)"]
+                "(closed form in Lean within 2^-40, or the independent measurement of harness/c07_oracle.py: 2^-40, and "
+                "2^-20 where the outline of a GEOS buffer takes part - that outline is not pinned by C08)",
+                "whether a term held in an instance of a Term *subclass* is the same term as a plain Term with equal fields "
+                "(pydantic's __eq__ says no today; C19's business): every generated call uses one Term class for all its tags, "
+                "while the class of the Tag objects varies freely"]
 
 
 # ---------------------------------------------------------------- geometry layer
